@@ -233,7 +233,8 @@ def run(ctx):
         if rng.random() < 0.7:
             cfg.arch = [tuple(list(a[:-1]) + [False]) if a[0] in ('lin', 'conv') else a for a in cfg.arch]
         nsteps = rng.randrange(2, 5)
-        cfg.hyper['kl_clip'] = [rng.choice([None, Fraction(10**6), Fraction(1, 10**5), Fraction(1, 10**3)]) for _ in range(nsteps)]
+        # (a schedule may reach exactly 0: nu = 0 then, the bound holds with equality — 0 is not "no clipping")
+        cfg.hyper['kl_clip'] = [rng.choice([None, Fraction(10**6), Fraction(1, 10**5), Fraction(1, 10**3), Fraction(0)]) for _ in range(nsteps)]
         cfg.hyper['lr'] = Fraction(1, 10)
         cfg.ops = (['f1'] * cfg.accum + ['s']) * nsteps
         cfgs.append(cfg)
